@@ -87,8 +87,10 @@ pub fn full_digest(sess: &Sess) -> Vec<String> {
         Ok(f) => out.extend(f),
         Err(p) => out.push(format!("functions: PANIC {p}")),
     }
-    // units: defining expression (the line listing dimension alias names is left out: it
-    // reflects which alias names existed when the unit was defined, not the unit's type)
+    // units: the complete `info` text — defining expression and the rendered type ("A unit of: X
+    // or Y"). The rendered type lists the dimension names known when the unit was defined; on
+    // the unchanged tree it is the same for every ordered pair of modules and every sampled
+    // subset (measured), so a difference is reported (seeded change S17e).
     let mut units: Vec<String> = names
         .units
         .iter()
@@ -103,11 +105,7 @@ pub fn full_digest(sess: &Sess) -> Vec<String> {
                 let kept: Vec<&str> = s
                     .lines()
                     .map(|l| l.trim())
-                    .filter(|l| {
-                        !l.is_empty()
-                            && !l.starts_with("A unit of:")
-                            && !l.starts_with("A dimensionless unit")
-                    })
+                    .filter(|l| !l.is_empty())
                     .collect();
                 out.push(format!("unit {u}: {}", kept.join(" ⏎ ")));
             }
